@@ -39,9 +39,11 @@ def rule_F1(ctx, entries: List[Tuple[str, Optional[List[str]]]], label: str, rul
             for ev in evs:
                 path = [_short(x) for x in ev["path"]]
                 root_fn = path[-1]
+                # the first callee on the way (a different call site reaching the same root cause is a different finding)
+                hop = path[1] if len(path) > 2 else None
                 what = ev["root"].split("|", 1)[1] if "|" in ev["root"] else ""
                 ctx.check(False, rule, f"{_short(q)}({p}) via {root_fn}: {what[:40]}", func=f, node=ev["node"],
-                          construct=f"mutates:{p}:via:{root_fn}:{what[:40]}",
+                          construct=f"mutates:{p}:via:{(hop + '>') if hop and hop != root_fn else ''}{root_fn}:{what[:40]}",
                           msg=f"read-only entry point {_short(q)} mutates its argument `{p}`: {ev['desc'][:220]}", path=path)
     ctx.floor(rule, f"{label}: (entry, parameter) pairs", n, max(1, len(entries)))
 
